@@ -94,15 +94,26 @@ def arith(op, a, b):
         if op == 'matmul':
             return app('dot', x, y)
         return app(op, x, y)
-    if op == 'mul':
-        # rows * column_vector[:, None]
-        for rows, col in ((a, b), (b, a)):
+    if op in ('mul', 'add', 'sub', 'div'):
+        # rows * column_vector[:, None], planes - vector[:, None, None]: item k of the vector meets row / plane k
+        for rows, col, swap in ((a, b, False), (b, a, True)):
             ca = col.single_atom() if isinstance(col, Poly) else None
             if isinstance(rows, Tup) and ca is not None and ca[0] == 'idx' and ca[1][0] == 'val' and isinstance(ca[1][1], Tup) \
-                    and len(ca[1][1]) == len(rows) and isinstance(ca[2], Tup) and len(ca[2]) == 2 \
-                    and isinstance(ca[2].items[0], Slice) and ca[2].items[0] == Slice(NONE, NONE) and ca[2].items[1] == NONE \
-                    and all(_arrayish(r) for r in rows.items):
-                return Tup([P(r) * P(x) for r, x in zip(rows.items, ca[1][1].items)], 'vec')
+                    and len(ca[1][1]) == len(rows) and isinstance(ca[2], Tup) and len(ca[2]) >= 2 \
+                    and isinstance(ca[2].items[0], Slice) and ca[2].items[0] == Slice(NONE, NONE) \
+                    and all(k == NONE for k in ca[2].items[1:]) \
+                    and all(_arrayish(r) or _grid_plane(r, len(ca[2]) - 1) for r in rows.items) \
+                    and (op == 'mul' or all(_grid_plane(r, len(ca[2]) - 1) for r in rows.items)):
+                return Tup([f(x, r) if swap else f(r, x) for r, x in zip(rows.items, ca[1][1].items)], rows.kind if op != 'mul' else 'vec')
+    if op == 'matmul':
+        # a contraction, not an element-wise operation: two short vectors of scalars give the sum of the products
+        if isinstance(a, Tup) and isinstance(b, Tup) and len(a) == len(b) and a.items and \
+                all(isinstance(x, Poly) and _dimlike(x) for x in a.items + b.items):
+            out = Poly.const(0)
+            for x, y in zip(a.items, b.items):
+                out = out + x * y
+            return out
+        return app('dot', P(a), P(b))
     r = lift(f, a, b)
     return r if r is not None else app(op, P(a), P(b))
 
@@ -214,6 +225,9 @@ def h_broadcast_to(ip, st, args, kw, node):
             if x.const_value() is not None:
                 return Tup([x, x], 'vec')
             return Tup([nf.index(x, Poly.const(0)), nf.index(x, Poly.const(1))], 'vec')
+    if isinstance(shp, Tup) and len(shp) >= 2 and isinstance(x, Poly) and all(isinstance(i, Poly) for i in shp.items):
+        # the values of x repeated over the axes it lacks: what x * ones(shape) holds
+        return x * app('ones', Tup(shp.items))
     return app('broadcast_to', P(x), P(shp))
 
 
@@ -591,6 +605,34 @@ ARRAY_METHODS_MUTATE = {
     'update', 'remove', 'reverse', 'setdefault', 'add', 'discard', 'setflags', 'partition',
 }
 
+def _grid_plane(v, ndim):
+    """a plane of np.indices / np.mgrid over ``ndim`` axes, possibly shifted and scaled by scalars of the dimensions"""
+    if not isinstance(v, Poly) or not v.terms:
+        return False
+    seen = False
+    for m, _ in v.terms:
+        g = [a for a, _ in m if a[0] == 'app' and a[1] == 'mgrid' and len(a[2]) == ndim + 1]
+        rest = [a for a, _ in m if a not in g]
+        if len(g) > 1 or not _dimlike(Poly(((tuple((a, e) for a, e in m if a in rest), Fraction(1)),))):
+            return False
+        seen = seen or bool(g)
+    return seen
+
+
+def _dimlike(v):
+    """an expression in array dimensions and numbers only (x.shape[0], len(x), x.size, x.ndim): a scalar"""
+    def dim(a):
+        if a[0] == 'idx':
+            return a[1][0] == 'attr' and a[1][2] == 'shape'
+        if a[0] == 'attr':
+            return a[2] in ('size', 'ndim')
+        if a[0] == 'app':
+            return a[1] == 'len' or a[1] in ('floor', 'ceil', 'trunc', 'abs', 'max', 'min') and \
+                all(isinstance(x, Poly) and _dimlike(x) for x in a[2])
+        return False
+    return all(dim(a) for m, _ in v.terms for a, _ in m)
+
+
 def _arrayish(v):
     """a known array (not a scalar) by construction"""
     if not isinstance(v, Poly) or not v.terms:
@@ -669,8 +711,33 @@ def h_flatnonzero(ip, st, args, kw, node):
 
 
 HANDLERS['numpy.multiply.outer'] = h_generic('outer')
-HANDLERS['numpy.add.outer'] = h_generic('add_outer')
-HANDLERS['numpy.subtract.outer'] = h_generic('sub_outer')
+def _one_dim(v):
+    """an expression in 1-D sample vectors (fftfreq, arange, linspace) and scalars of the dimensions"""
+    if not isinstance(v, Poly) or not v.terms:
+        return False
+    for m, _ in v.terms:
+        vec = [a for a, _ in m if a[0] == 'app' and a[1] in ('fft.fftfreq', 'fft.rfftfreq', 'arange', 'linspace')]
+        rest = tuple((a, e) for a, e in m if a not in vec)
+        if len({a for a in vec}) != 1 or not _dimlike(Poly(((rest, Fraction(1)),))):
+            return False
+    return True
+
+
+def h_outer_sum(sign):
+    def h(ip, st, args, kw, node):
+        # np.add.outer(a, b)[i, j] is a[i] + b[j]: for vectors a[:, None] + b
+        if len(args) == 2 and not kw and _one_dim(args[0]) and _one_dim(args[1]):
+            key = Tup([Slice(NONE, NONE), NONE])
+            vecs = {a for m, _ in args[0].terms for a, _ in m
+                    if a[0] == 'app' and a[1] in ('fft.fftfreq', 'fft.rfftfreq', 'arange', 'linspace')}
+            col = nf.subst_value(args[0], {a: nf.index(Poly.atom(a), key) for a in vecs})
+            return col + args[1] if sign > 0 else col - args[1]
+        return app('add_outer' if sign > 0 else 'sub_outer', *[P(a) for a in args], **kw)
+    return h
+
+
+HANDLERS['numpy.add.outer'] = h_outer_sum(1)
+HANDLERS['numpy.subtract.outer'] = h_outer_sum(-1)
 HANDLERS['numpy.ravel'] = lambda ip, st, a, kw, node: app('m:ravel', P(a[0]))
 def _returned_tuple_len(ip, v):
     """number of items when `v` is the result of a package function whose every return is a tuple display of that length"""
@@ -833,6 +900,9 @@ HANDLERS['numpy.repeat'] = h_repeat
 for _op, _nm in (('add', 'add'), ('sub', 'sub'), ('mul', 'mul'), ('truediv', 'div'), ('floordiv', 'floordiv'), ('pow', 'pow'),
                  ('mod', 'mod')):
     HANDLERS['operator.' + _op] = (lambda nm: (lambda ip, st, a, kw, node: arith(nm, a[0], a[1])))(_nm)
+for _op in ('lt', 'le', 'gt', 'ge', 'eq', 'ne'):
+    # operator.gt(a, b) is a > b
+    HANDLERS['operator.' + _op] = (lambda nm: (lambda ip, st, a, kw, node: ip.compare(nm, a[0], a[1])))(_op)
 HANDLERS['operator.neg'] = lambda ip, st, a, kw, node: arith('mul', Poly.const(-1), a[0])
 
 
